@@ -81,9 +81,79 @@ def run_case(c):
     return res
 
 
+def poisoned(ctx, cap, kind="numpy"):
+    from xobjects.context_cpu import BufferByteArray
+    b = BufferByteArray(capacity=cap, context=ctx) if kind == "bytearray" else ctx.new_buffer(cap)
+    b.update_from_buffer(0, bytes([0x5A]) * int(b.capacity))
+    return b
+
+
+def run_string(c):
+    """a stand-alone String copied into storage that was used before (not zero)"""
+    ctx = xo.ContextCpu()
+    b = poisoned(ctx, 256, c["kind"])
+    b.allocate(c["pre"])
+    src = xo.String(c["init"], _buffer=b)
+    if c.get("then") is not None:
+        src_holder = None
+    dest = {"same": b, "other": poisoned(ctx, 256, c["kind"]), "ctx": poisoned(xo.ContextCpu(), 256, c["kind"]),
+            "otherkind": poisoned(ctx, 256, "bytearray" if c["kind"] == "numpy" else "numpy")}[c["where"]]
+    res = {"src": src.to_str() if hasattr(src, "to_str") else str(src)}
+    try:
+        cp = xo.String(src, _buffer=dest)
+        res["cp"] = cp.to_str(); res["cpview"] = xo.String._from_buffer(dest, cp._offset)
+        res["cp_extent"] = [int(cp._offset), int(cp._size)]; res["src_extent"] = [int(src._offset), int(src._size)]; res["same_buffer"] = dest is b
+    except BaseException as e:  # noqa
+        res["exc"] = X.exc_class(e); res["msg"] = repr(e)[:200]
+    return res
+
+
+def run_large(c):
+    """a reference-free object of more than a megabyte copied to another buffer / context / buffer kind"""
+    ctx = xo.ContextCpu()
+    n = c["n"]
+    class Big(xo.Struct):
+        k = xo.Int64
+        a = xo.Float64[:]
+        s = xo.String
+        z = xo.Int32
+    vals = (np.arange(n) % 1000003).astype(np.float64)
+    b = poisoned(ctx, 64, c["kind"])
+    if c["what"] == "array":
+        src = xo.Float64[:](vals, _buffer=b); T = xo.Float64[:]
+        rd = lambda o: o.to_nparray()
+    else:
+        src = Big(k=7, a=vals, s="tail of the object", z=-3, _buffer=b); T = Big
+        rd = lambda o: np.concatenate([[float(o.k)], o.a.to_nparray(), [float(len(o.s)), float(o.z)]])
+    exp = rd(src).copy()
+    res = {}
+    try:
+        if c["where"] == "ctx": cp = T(src, _context=xo.ContextCpu())
+        elif c["where"] == "other": cp = T(src, _buffer=ctx.new_buffer(64))
+        elif c["where"] == "otherkind": cp = T(src, _buffer=poisoned(xo.ContextCpu(), 64, "bytearray" if c["kind"] == "numpy" else "numpy"))
+        else: cp = T(src, _buffer=b)
+        got = rd(cp)
+        bad = np.nonzero(got != exp)[0] if got.shape == exp.shape else np.array([-1])
+        res["differs"] = int(len(bad)); res["first"] = int(bad[0]) if len(bad) else None
+        got2 = rd(T._from_buffer(cp._buffer, cp._offset))
+        res["view_differs"] = int(np.sum(got2 != exp)) if got2.shape == exp.shape else -1
+        res["src_changed"] = int(np.sum(rd(src) != exp))
+    except BaseException as e:  # noqa
+        res["exc"] = X.exc_class(e); res["msg"] = repr(e)[:200]
+    return res
+
+
 def main():
     req = json.load(sys.stdin)
     out = []
+    if "strings" in req or "large" in req:
+        for c in req.get("strings", []):
+            try: out.append(run_string(c))
+            except BaseException as e: out.append({"harness": repr(e)[:200], "tb": traceback.format_exc()[-500:]})  # noqa
+        for c in req.get("large", []):
+            try: out.append(run_large(c))
+            except BaseException as e: out.append({"harness": repr(e)[:200], "tb": traceback.format_exc()[-500:]})  # noqa
+        print(json.dumps({"results": out})); return
     for c in req["cases"]:
         try:
             out.append(run_case(c))
